@@ -90,8 +90,36 @@ def second_pass_order(types):
     return [tuple(s.split(".")) for s in index]
 
 
+_MISSING = object()
+_ROOT_PARENT = [None]      # resolved parent directory of the root namespace directory of the tree being looked at
+_PRIVATE_NOTES = {}        # private attribute -> why the optional cross-check could not be made (reported once per run)
+
+
+def priv(obj, name):
+    """A private attribute, for optional cross-checks only; never raises."""
+    try:
+        return getattr(obj, name)
+    except Exception as ex:  # renamed / removed / re-typed: the public walk goes on
+        _PRIVATE_NOTES.setdefault(name, f"{type(ex).__name__}: {ex}"[:200])
+        return _MISSING
+
+
+def set_root_dir(root_dir):
+    _ROOT_PARENT[0] = pathlib.Path(root_dir).resolve().parent
+
+
+def is_namespace(x):
+    import nunavut
+    return isinstance(x, nunavut.Namespace)
+
+
+def nested_of(ns):
+    """Directly nested namespaces through the public API."""
+    return [c for c in ns.get_nested_namespaces() if is_namespace(c)]
+
+
 def walk_nodes(root):
-    """Namespace objects reachable from the root through `_nested_namespaces`, each object once."""
+    """Namespace objects reachable from the root through get_nested_namespaces(), each object once."""
     out, seen, todo = [], set(), [root]
     while todo:
         n = todo.pop()
@@ -99,12 +127,40 @@ def walk_nodes(root):
             continue
         seen.add(id(n))
         out.append(n)
-        todo.extend(n._nested_namespaces)
+        todo.extend(nested_of(n))
     return out
 
 
 def nskey(ns):
-    return tuple(ns._namespace_components)
+    """Unstropped name components of a namespace: from the public `source_file_path` (the DSDL directory) relative to
+    the root namespace's parent directory; `Namespace("")` (no types) is the single empty component.  The private
+    `_namespace_components` is only a cross-check."""
+    key = None
+    try:
+        if ns.full_namespace == "":
+            key = ("",)
+        elif _ROOT_PARENT[0] is not None:
+            key = tuple(pathlib.Path(ns.source_file_path).resolve().relative_to(_ROOT_PARENT[0]).parts)
+    except Exception as ex:
+        _PRIVATE_NOTES.setdefault("source_file_path", f"{type(ex).__name__}: {ex}"[:200])
+    c = priv(ns, "_namespace_components")
+    if c is not _MISSING and isinstance(c, (list, tuple)) and all(isinstance(x, str) for x in c):
+        if key is None:
+            key = tuple(c)
+        elif tuple(c) != key:
+            _PRIVATE_NOTES.setdefault("_namespace_components!=source_file_path", f"{tuple(c)} vs {key}")
+    if key is None:
+        raise RuntimeError(f"cannot name namespace {ns.full_namespace!r}")
+    return key
+
+
+def parent_map(root):
+    """child object id -> list of parent objects, from the public nested-namespace view."""
+    pm = {}
+    for n in walk_nodes(root):
+        for c in nested_of(n):
+            pm.setdefault(id(c), []).append(n)
+    return pm
 
 
 def impl_extract(types, every, root_dir, out_dir, lctx):
@@ -117,14 +173,17 @@ def impl_extract(types, every, root_dir, out_dir, lctx):
         root = build_namespace_tree(types, root_dir, out_dir, lctx)
     except ValueError:
         return {"error": "err:value"}, None
+    set_root_dir(root_dir)
     res = {"root": kstr(nskey(root))}
     nodes = {}
+    pm = parent_map(root)
     for n in walk_nodes(root):
+        ps = pm.get(id(n), [])
         nodes[kstr(nskey(n))] = {
-            "parent": None if n._parent is None else kstr(nskey(n._parent)),
-            "nested": sorted(kstr(nskey(c)) for c in n._nested_namespaces),
-            "path": parts_of(n._output_path),
-            "types": sorted([tstr(tkey(t)), parts_of(p)] for t, p in n._data_type_to_outputs.items()),
+            "parent": None if not ps else kstr(nskey(ps[0])),
+            "nested": sorted(kstr(nskey(c)) for c in nested_of(n)),
+            "path": parts_of(n.find_output_path_for_type(n)),
+            "types": sorted([tstr(tkey(t)), parts_of(p)] for t, p in n.get_nested_types()),
         }
     res["nodes"] = nodes
     nss = list(root.get_all_namespaces())
@@ -132,7 +191,7 @@ def impl_extract(types, every, root_dir, out_dir, lctx):
     res["datatypes"] = sorted([tstr(tkey(t)), parts_of(p)] for t, p in root.get_all_datatypes())
     al = []
     for x, p in root.get_all_types():
-        if hasattr(x, "_namespace_components"):
+        if is_namespace(x):
             al.append(["N", kstr(nskey(x))])
         else:
             al.append(["T", tstr(tkey(x)), parts_of(p)])
@@ -284,6 +343,7 @@ def search(ctx, case, types, every, root_dir, clean_out, lctx, built, own_paths)
     gets in the tree of its *own* root namespace under the same language configuration.
     """
     root, gen = built
+    set_root_dir(root_dir)
     language = lctx.get_target_language()
     strop = lambda s: language.filter_id(s, "path")  # noqa: E731
     estrop = strop if language.enable_stropping else (lambda s: s)
@@ -329,17 +389,21 @@ def search(ctx, case, types, every, root_dir, clean_out, lctx, built, own_paths)
         for k in set(gotns) - wanted_ns:
             ctx.fail({"kind": "alien-namespace"}, "a namespace is yielded that is no prefix of a type's namespace", rep(namespace=kstr(k)))
     # -- links
-    if root._parent is not None:
+    pm = parent_map(root)
+    if pm.get(id(root)) or root.get_root_namespace() is not root or priv(root, "_parent") not in (None, _MISSING):
         ctx.fail({"kind": "root-has-parent"}, "the root namespace has a parent", rep())
     for n, _ in nss:
         k = nskey(n)
         if n is root:
             continue
-        p = n._parent
-        if p is None or nskey(p) != k[:-1] or not any(c is n for c in p.get_nested_namespaces()):
+        ps = pm.get(id(n), [])
+        p = ps[0] if len(ps) == 1 else None
+        pp = priv(n, "_parent")      # optional cross-check of the private link against the public view
+        if p is None or nskey(p) != k[:-1] or (pp is not _MISSING and pp is not p):
             if not affected(k):
                 ctx.fail({"kind": "parent-child-link"}, "parent/child links are inconsistent",
-                         rep(namespace=kstr(k), parent=None if p is None else kstr(nskey(p))))
+                         rep(namespace=kstr(k), listed_as_nested_by=[kstr(nskey(x)) for x in ps],
+                             private_parent=None if pp in (None, _MISSING) or not is_namespace(pp) else kstr(nskey(pp))))
         if n.get_root_namespace() is not root and not affected(k):
             ctx.fail({"kind": "root-not-reached"}, "get_root_namespace of a node is not the root", rep(namespace=kstr(k)))
     # -- path formula, containment, lookup, injectivity
@@ -793,6 +857,10 @@ def run(ctx: common.Ctx):
                 ctx.disagree("nstree", dict(case, request=line, where=d.get("field"), at=d.get("at")),
                              d.get("model", m.get("error", "?")), d.get("impl", res.get("error", "?")))
     lap("model_and_compare")
+    if _PRIVATE_NOTES:
+        ctx.broken.append({"kind": "optional-cross-check-unavailable", "what": "a private attribute used only for cross-checking the public "
+                           "view changed representation or disagrees with it; the public walk and all predicates still ran", "details": dict(_PRIVATE_NOTES)})
+        _PRIVATE_NOTES.clear()
     for line, res, case, every in pending[:2] + pending[len(pending) // 2: len(pending) // 2 + 2] + pending[-2:]:
         ctx.sample({"case": {k: case[k] for k in ("universe", "root", "lang", "ext", "stem", "outdir")}, "types": case["types"][:6],
                     "paths": ["/".join(e[1]) for e in res.get("datatypes", [])][:6], "namespaces": res.get("namespaces", res.get("error"))})
